@@ -19,6 +19,9 @@ pub struct C16Case {
     pub ctx: u8,
     pub block_others: Vec<i32>,
     pub pre_ignore: bool,
+    /// the other blocked signals are also made pending (raised while blocked) before the call
+    #[serde(default)]
+    pub pend_others: bool,
 }
 
 #[derive(Clone, Debug, PartialEq, Serialize, Deserialize)]
@@ -205,7 +208,13 @@ fn emulated(case: &C16Case) -> (Vec<Value>, Obs) {
     probe(move |fd| {
         crate::vsched::install();
         let n = case.n;
-        mask(libc::SIG_BLOCK, &case.block_others.iter().cloned().filter(|s| *s != n && *s != libc::SIGKILL && *s != libc::SIGSTOP).collect::<Vec<_>>());
+        let others: Vec<i32> = case.block_others.iter().cloned().filter(|s| *s != n && *s != libc::SIGKILL && *s != libc::SIGSTOP && *s != 32 && *s != 33).collect();
+        mask(libc::SIG_BLOCK, &others);
+        if case.pend_others {
+            for o in &others {
+                unsafe { libc::raise(*o) };
+            }
+        }
         if case.pre_ignore && (1..=64).contains(&n) && n != libc::SIGKILL && n != libc::SIGSTOP && case.ctx != 1 {
             set_disposition(n, libc::SIG_IGN);
         }
@@ -265,7 +274,10 @@ pub fn run_case(case: &C16Case) -> CaseReport {
     let mut rep = CaseReport::default();
     let n = case.n;
     let ctxname = ["normal", "in-handler", "blocked", "unblocked"][case.ctx as usize % 4];
-    rep.hash = hash_of(&(n, case.ctx, &case.block_others, case.pre_ignore));
+    rep.hash = hash_of(&(n, case.ctx, &case.block_others, case.pre_ignore, case.pend_others));
+    if case.pend_others && !case.block_others.is_empty() {
+        rep.class("other-signals-blocked-and-pending");
+    }
     let name = signal_hook::low_level::signal_name(n);
     let names = platform_names();
     // name check
@@ -343,10 +355,11 @@ pub fn strategy() -> BoxedStrategy<C16Case> {
     (
         prop_oneof![6 => 1i32..65, 1 => proptest::sample::select(vec![0, -1, 65, 128, i32::MAX, i32::MIN])],
         0u8..4,
-        vec(1i32..65, 0..4),
+        vec(prop_oneof![2 => 1i32..65, 3 => proptest::sample::select(vec![libc::SIGTERM, libc::SIGINT, libc::SIGUSR1, libc::SIGHUP, libc::SIGQUIT, libc::SIGALRM])], 0..4),
+        any::<bool>(),
         any::<bool>(),
     )
-        .prop_map(|(n, ctx, block_others, pre_ignore)| C16Case { n, ctx, block_others, pre_ignore })
+        .prop_map(|(n, ctx, block_others, pre_ignore, pend_others)| C16Case { n, ctx, block_others, pre_ignore, pend_others })
         .boxed()
 }
 
@@ -361,7 +374,18 @@ fn extra(def: &PropDef, _args: &WorkerArgs, report: &mut WorkerReport) {
     nums.extend([0, -1, 65, 128, i32::MAX]);
     for n in nums {
         for ctx in 0..4u8 {
-            let case = C16Case { n, ctx, block_others: vec![], pre_ignore: false };
+            let case = C16Case { n, ctx, block_others: vec![], pre_ignore: false, pend_others: false };
+            let rep = run_case(&case);
+            if let Some(v) = report.absorb(def, &rep, &known) {
+                report.violation = Some((v.key, v.msg, serde_json::to_value(&case).unwrap()));
+                return;
+            }
+        }
+    }
+    for n in 1..=64 {
+        for ctx in [0u8, 1] {
+            let other = if n == libc::SIGTERM { libc::SIGINT } else { libc::SIGTERM };
+            let case = C16Case { n, ctx, block_others: vec![other, libc::SIGUSR2], pre_ignore: false, pend_others: true };
             let rep = run_case(&case);
             if let Some(v) = report.absorb(def, &rep, &known) {
                 report.violation = Some((v.key, v.msg, serde_json::to_value(&case).unwrap()));
